@@ -534,14 +534,15 @@ func c17SuccessFrame(c *Ctx, p *Program) {
 }
 
 func c17SingleReader(c *Ctx, p *Program) {
-	for _, name := range []string{"decodeBytes", "DecodeConfig", "GetFeatures"} {
-		fn := p.Fn("", name)
-		if fn == nil {
-			c.AnchorMissing("P4", "webp."+name)
-			continue
+	// forwardsOnly: every call in fn that is handed a byte slice goes to container.NewParser or to a
+	// function of the root package that itself only forwards (helpers such as parseReader /
+	// parseContainer shared by the entry points); returns the offending call and the number of uses
+	var forwardsOnly func(fn *ssa.Function, depth int, seen map[*ssa.Function]bool) (bad string, nuse int)
+	forwardsOnly = func(fn *ssa.Function, depth int, seen map[*ssa.Function]bool) (string, int) {
+		if seen[fn] || depth > 4 {
+			return "", 0
 		}
-		c.Func(FnName(fn))
-		// byte slices in the function: parameters or results of readAll
+		seen[fn] = true
 		bad := ""
 		nuse := 0
 		for _, b := range fn.Blocks {
@@ -550,27 +551,79 @@ func c17SingleReader(c *Ctx, p *Program) {
 				if !ok {
 					continue
 				}
+				if _, isB := ci.Common().Value.(*ssa.Builtin); isB {
+					continue
+				}
+				callee := ci.Common().StaticCallee()
+				hasBytes := false
 				for _, a := range ci.Common().Args {
 					sl, isSl := a.Type().Underlying().(*types.Slice)
 					if !isSl {
 						continue
 					}
-					if bt, ok := sl.Elem().Underlying().(*types.Basic); !ok || bt.Kind() != types.Uint8 {
-						continue
+					if bt, ok := sl.Elem().Underlying().(*types.Basic); ok && bt.Kind() == types.Uint8 {
+						hasBytes = true
 					}
-					callee := ci.Common().StaticCallee()
-					if _, isB := ci.Common().Value.(*ssa.Builtin); isB {
-						continue
-					}
+				}
+				isParser := callee != nil && strings.HasSuffix(callee.String(), "container.NewParser")
+				local := callee != nil && callee.Blocks != nil && callee.Pkg == fn.Pkg && callee.Parent() == nil
+				switch {
+				case hasBytes && isParser:
 					nuse++
-					if callee == nil || !(strings.HasSuffix(callee.String(), "container.NewParser") || callee.Name() == "decodeBytes") {
+				case hasBytes && callee != nil && callee.Name() == "decodeBytes":
+					nuse++
+				case local && (hasBytes || (takesReader(callee) && returnsParser(callee))):
+					// a helper of the package that is handed the bytes (or the reader they come from)
+					b2, n2 := forwardsOnly(callee, depth+1, seen)
+					if hasBytes {
+						nuse++
+					}
+					nuse += n2
+					if b2 != "" && bad == "" {
+						bad = b2
+					}
+					if hasBytes && n2 == 0 && b2 == "" && !returnsParser(callee) {
+						bad = fmt.Sprintf("input bytes are passed to %v at %s", ci.Common().Value, p.Pos(in.Pos()))
+					}
+				case hasBytes:
+					nuse++
+					if bad == "" {
 						bad = fmt.Sprintf("input bytes are passed to %v at %s", ci.Common().Value, p.Pos(in.Pos()))
 					}
 				}
 			}
 		}
+		return bad, nuse
+	}
+	for _, name := range []string{"decodeBytes", "DecodeConfig", "GetFeatures"} {
+		fn := p.Fn("", name)
+		if fn == nil {
+			c.AnchorMissing("P4", "webp."+name)
+			continue
+		}
+		c.Func(FnName(fn))
+		bad, nuse := forwardsOnly(fn, 0, map[*ssa.Function]bool{})
 		c.Check(bad == "" && nuse > 0, "P4-single-reader", "webp."+name, p.Pos(fn.Pos()), "the input bytes reach only container.NewParser", "the entry point reads the input outside the container parser: "+bad)
 	}
+}
+
+func takesReader(fn *ssa.Function) bool {
+	for _, prm := range fn.Params {
+		if types.TypeString(prm.Type(), nil) == "io.Reader" {
+			return true
+		}
+	}
+	return false
+}
+
+func returnsParser(fn *ssa.Function) bool {
+	res := fn.Signature.Results()
+	for i := 0; i < res.Len(); i++ {
+		if strings.HasSuffix(types.TypeString(res.At(i).Type(), nil), "container.Parser") {
+			return true
+		}
+	}
+	return false
 }
 
 // ---- P7: the parser parses the input, not a buffer of its own ----
